@@ -63,9 +63,9 @@ func TestC13(t *testing.T) {
 		name string
 		f    func(*vcore.Run)
 	}{
-		{"honest-range-grid", honestRangeGrid}, {"honest-range-tinyfield", honestRangeTiny}, {"honest-range-mixes", honestRangeMixes},
+		{"honest-range-grid", honestRangeGrid}, {"honest-range-tinyfield", honestRangeTiny}, {"honest-range-mixes", honestRangeMixes}, {"honest-range-narrow-in-wide", honestNarrowInWide},
 		{"honest-range-expressions", exprChecks}, {"honest-lookups", honestLookups}, {"adv-range", advRange}, {"adv-lookup", advLookup},
-		{"adv-several-gadgets", advMulti}, {"two-pass-prover", twoPass}, {"challenge-dependence", challengeDependence},
+		{"adv-several-gadgets", advMulti}, {"two-pass-prover", twoPass}, {"challenge-dependence", challengeDependence}, {"table-commitment", tableCommitment},
 		{"real-provers", realProvers}, {"test-engine-sample", testEngineSample},
 	}
 	secs := map[string]float64{}
@@ -88,12 +88,26 @@ func TestC13(t *testing.T) {
 	r.Require("adv.rc.rejected", 200)
 	r.Require("adv.rc.decompose-lies-applied", 100)
 	r.Require("adv.rc.count-lies-applied", 100)
+	r.Require("adv.rc.narrow-dyadic-rejected", 500)
 	r.Require("adv.lk.rejected", 100)
 	r.Require("adv.lk.result-lies-applied", 100)
 	r.Require("adv.lk.count-lies-applied", 50)
 	r.Require("rc.expr.accepted", 20)
 	r.Require("rc.expr.rejected", 20)
 	r.Require("adv.multi.rejected", 50)
+	r.Require("rc.dyadic-fraction-rejected.commit", 500)
+	r.Require("rc.dyadic-fraction-rejected.plain", 200)
+	r.Require("rc.narrow.limbwidth-exceeds-narrow-width", 20)
+	r.Require("engine.rc.narrow-rejected", 20)
+	r.Require("prover.narrow-out-of-range-cases", 10)
+	r.Require("chal.table-entry-pairs-compared", 100)
+	r.Require("chal.table-entry.never-queried", 30)
+	r.Require("chal.table-entry-moved.const-last", 8)
+	r.Require("chal.table-entry-moved.const-first", 8)
+	r.Require("chal.table-entry-moved.const-middle", 8)
+	r.Require("chal.table-entry-moved.const-padding", 8)
+	r.Require("twopass.table.rejected", 30)
+	r.Require("twopass.table.challenge-moved", 30)
 	r.Require("twopass.rejected", 8)
 	r.Require("twopass.challenge-moved", 8)
 	r.Require("chal.pairs-compared", 10)
@@ -744,6 +758,8 @@ func advRange(r *vcore.Run) {
 		b   string
 		nv  int
 		rep int
+		// narrow > 0: one narrow-bit check among nv 16-bit checks, witness = dyadic fractions k*2^-j
+		narrow int
 	}
 	var jobs []job
 	sizes := []int{1, 1, 2, 5, 30, 250}
@@ -753,14 +769,28 @@ func advRange(r *vcore.Run) {
 	for _, fc := range []fieldCtx{fBN254, fBLS377} {
 		for k, nv := range sizes {
 			for _, b := range builders {
-				jobs = append(jobs, job{fc, b, nv, k})
+				jobs = append(jobs, job{fc, b, nv, k, 0})
+			}
+		}
+		narrows := []int{1, 3, 6}
+		if r.Thorough() {
+			narrows = []int{1, 2, 3, 4, 5, 6, 7}
+		}
+		for k, n := range narrows {
+			for _, b := range builders {
+				jobs = append(jobs, job{fc, b, []int{300, 40, r.Pick(120, 1500)}[k%3], k, n})
 			}
 		}
 	}
 	vcore.Parallel(len(jobs), 8, func(i int) {
 		j := jobs[i]
-		rng := r.Rand(fmt.Sprintf("adv-rc/%s/%d/%d", j.fc.name, j.nv, j.rep))
+		rng := r.Rand(fmt.Sprintf("adv-rc/%s/%d/%d/%d", j.fc.name, j.nv, j.rep, j.narrow))
 		sh := mixShape(rng, j.nv, j.fc.mod.BitLen(), false)
+		cks := countLieKinds
+		if j.narrow > 0 {
+			sh = narrowShape([]int{j.narrow}, j.nv, 16, false)
+			cks = []string{"honest", "skip", "fold"}
+		}
 		if j.nv == 1 {
 			// single variable: widths that are / are not multiples of the small limb widths, and near the field size
 			fb := j.fc.mod.BitLen()
@@ -773,10 +803,32 @@ func advRange(r *vcore.Run) {
 			return
 		}
 		cases := mixCases(rng, sh, j.fc.mod, 0, r.Pick(3, 10))
+		if j.narrow > 0 {
+			// the narrow variable holds k*2^-j for every j up to the largest limb width: with a lying
+			// DecomposeHint that returns the value itself as the limb, only a lookup of the unscaled limb rejects it
+			cases = nil
+			bd := sh.bound()
+			for jj := 1; jj <= 17; jj++ {
+				inv := new(big.Int).ModInverse(pow2(jj), j.fc.mod)
+				for _, k := range []*big.Int{big.NewInt(1), big.NewInt(3), new(big.Int).Sub(pow2(j.narrow), one)} {
+					v := new(big.Int).Mul(k, inv)
+					v.Mod(v, j.fc.mod)
+					if v.BitLen() <= j.narrow {
+						continue
+					}
+					vals := make([]*big.Int, sh.nVals)
+					for t := range vals {
+						vals[t] = inValues(rng, bd[t], j.fc.mod, 1)[0]
+					}
+					vals[0] = v
+					cases = append(cases, rcCase{vals, fmt.Sprintf("Vals[0]=%s*2^-%d=%s violates its %d-bit check (dyadic fraction)", k, jj, v, j.narrow)})
+				}
+			}
+		}
 		for _, cs := range cases {
 			w, _ := circuits.MakeWitness(j.fc.mod, []*big.Int{one}, cs.vals)
 			for _, dk := range decompLieKinds {
-				for _, ck := range countLieKinds {
+				for _, ck := range cks {
 					dst, cst, lg := &decompStats{}, &countStats{}, &commitLog{}
 					lrng := rand.New(rand.NewPCG(rng.Uint64(), 13))
 					serr, pan := solve(sys, w, solver.WithNbTasks(1), fixedMask(), hashCommit(lg),
@@ -810,6 +862,9 @@ func advRange(r *vcore.Run) {
 						r.Violation("adv-rangecheck-accepted-out-of-range/"+j.b+"/"+dk+"/"+ck, "Solve accepted an out-of-range value under lying hints: "+cs.note, rep)
 					default:
 						r.Count("adv.rc.rejected", 1)
+						if j.narrow > 0 && dst.lied > 0 {
+							r.Count("adv.rc.narrow-dyadic-rejected", 1)
+						}
 						r.Count("adv.rc.reject-reason: "+bucket(serr), 1)
 						if lg.calls > 0 {
 							r.Count("adv.rc.rejected-after-commitment-computed", 1)
